@@ -9,8 +9,63 @@ use crate::util::{Json, Rng};
 
 pub const C01_PAIRS: [&str; 8] = ["P8xP8", "T24xT24", "L200xB1", "A64xP8", "B1xB1", "B3xB1", "P8xT24", "B6xZ"];
 
+/// The `Copy`-only and default-hasher-only construction paths: `Extend<(&K, &V)>`, `Extend<&(K, V)>`,
+/// `From<[(K, V); N]>`, `HashSet: Extend<&T>` / `From<[T; N]>`, compared with a BTreeMap.
+fn copy_paths(c: &mut Ctx, rng: &mut Rng) {
+    use crate::ckalloc::CkAlloc;
+    use crate::elem::{Elem, B2, B6};
+    use std::collections::BTreeMap;
+    let plan = pick_plan(rng);
+    let bh = PlanBH::new(plan, rng.next());
+    let mut desc = Json::obj();
+    desc.set("case", Json::s("Extend<(&K,&V)> / Extend<&(K,V)> / From<[_;N]> on Copy element types"));
+    desc.set("plan", Json::s(plan.name()));
+    c.describe(desc);
+    let mut m: hashbrown::HashMap<B6, B2, PlanBH, CkAlloc> = hashbrown::HashMap::with_hasher_in(bh, CkAlloc);
+    let mut model: BTreeMap<u32, u32> = BTreeMap::new();
+    for round in 0..6 {
+        let n = rng.below(30) as usize;
+        let pairs: Vec<(B6, B2)> = (0..n).map(|_| (B6::make(rng.below(40) as u32, 0), B2::make(rng.below(60000) as u32, 0))).collect();
+        for (k, v) in &pairs {
+            model.insert(k.id(), v.id());
+        }
+        if round % 2 == 0 {
+            m.extend(pairs.iter().map(|(k, v)| (k, v)));
+        } else {
+            m.extend(pairs.iter());
+        }
+        c.evaluations += 1;
+        let got: BTreeMap<u32, u32> = m.iter().map(|(k, v)| (k.id(), v.id())).collect();
+        crate::check!(got == model && m.len() == model.len(), "Extend by reference (round {}): map has {} entries, model {}", round, m.len(), model.len());
+        for _ in 0..rng.below(10) {
+            let id = rng.below(40) as u32;
+            crate::check!(m.remove(&crate::plan::KeyRef(id)).map(|v| v.id()) == model.remove(&id), "remove({}) after Extend by reference disagrees with the model", id);
+        }
+        crate::validate::check_safety(&m.verif_dump(), "copy_paths");
+    }
+    // From<[(K, V); N]> (default hasher): repeated keys keep the last value
+    let arr = [(B6::make(1, 0), B2::make(10, 0)), (B6::make(2, 0), B2::make(20, 0)), (B6::make(1, 0), B2::make(30, 0)), (B6::make(3, 0), B2::make(40, 0))];
+    let f: hashbrown::HashMap<B6, B2, hashbrown::DefaultHashBuilder, CkAlloc> = hashbrown::HashMap::from(arr);
+    let got: BTreeMap<u32, u32> = f.iter().map(|(k, v)| (k.id(), v.id())).collect();
+    crate::check!(got == BTreeMap::from([(1, 30), (2, 20), (3, 40)]), "From<[(K,V);4]> gives {:?}", got);
+    let mut s: hashbrown::HashSet<B6, PlanBH, CkAlloc> = hashbrown::HashSet::with_hasher_in(bh, CkAlloc);
+    let items: Vec<B6> = (0..rng.below(50)).map(|_| B6::make(rng.below(30) as u32, 0)).collect();
+    s.extend(items.iter());
+    let want: std::collections::BTreeSet<u32> = items.iter().map(|x| x.id()).collect();
+    let gots: std::collections::BTreeSet<u32> = s.iter().map(|x| x.id()).collect();
+    crate::check!(gots == want && s.len() == want.len(), "HashSet Extend<&T>: {} elements, expected {}", s.len(), want.len());
+    let fs: hashbrown::HashSet<B6, hashbrown::DefaultHashBuilder, CkAlloc> = hashbrown::HashSet::from([B6::make(5, 0), B6::make(5, 0), B6::make(6, 0)]);
+    crate::check!(fs.len() == 2, "HashSet::from([5,5,6]) has {} elements", fs.len());
+    c.evaluations += 3;
+    c.sig_parts(&[0xc0b1, crate::ctx::prop_salt(&plan.name())]);
+}
+
 pub fn run(c: &mut Ctx) {
     c.run_scenarios(|c, idx, rng| {
+        if crate::util::mix(idx) % 23 == 0 {
+            copy_paths(c, rng);
+            return;
+        }
         let pair = C01_PAIRS[(crate::util::mix(idx) % C01_PAIRS.len() as u64) as usize];
         for_pair!(pair, scenario(c, idx, rng));
     });
